@@ -1,10 +1,16 @@
 import Frp.Engines.Router
 import Frp.Engines.HttpAuth
+import Frp.Engines.Udp
+import Frp.Engines.Conf
+import Frp.Engines.Nat
 /-! Registry of driver engines (one line per engine). -/
 namespace Frp.Engines
 open Frp.Proto
 def all : List (String × Engine) :=
   [ ("router", router)
   , ("httpauth", httpauth)
+  , ("udp", udp)
+  , ("conf", conf)
+  , ("nat", nat)
   ]
 end Frp.Engines
